@@ -15,6 +15,7 @@ from dalimc.aio.engine import execute, Caller
 
 ID = "C20"
 OPTIMISED_STRIDE = {"quick": 12, "thorough": 24}      # every k-th shard once more in an interpreter started with -O
+TRACE_STRIDE = {"quick": 8, "thorough": 16}      # every k-th shard once more with logging enabled down to TRACE
 LEVEL = "model_checking"
 ENGINE = "E3"
 TECHNIQUE = "controlled-scheduler exploration of the real bus watcher / serial receivers fed with enumerated traffic histories; reference automaton transcribed from the statement"
